@@ -147,59 +147,67 @@ def run(prop, tier, seed, replay=None):
     states = transitions = 0
     models, cover = [], {}
     n_wit = 0
-    per_family = 70 if quick else 500
-    n_sim = 40 if quick else 400
+    per_family = 60 if quick else 500
+    n_sim = 30 if quick else 400
     from concurrent.futures import ThreadPoolExecutor
-    pool = ThreadPoolExecutor(max_workers=2)    # two TLC runs of 4 workers at a time
+    pool = ThreadPoolExecutor(max_workers=4)    # never more than 8 TLC workers at a time
     fut = {}
     tier_cfg = "quick" if quick else "thorough"
+    gen_fams = ["tenants"] if quick else FAMILIES
+    fast = bool(os.environ.get("VERIF_X12_DIRECTED"))   # binding demonstration: simulated + directed behaviours only, no exhaustive model runs
+    if fast:
+        gen_fams = []
+    for fam in ([] if fast else FAMILIES):
+        fut[fam, "check"] = pool.submit(tlc_ok, "UserFlow.%s.%s.cfg" % (fam, tier_cfg), "prescriptive", timeout=1500, workers=2)
+    for fam in gen_fams:
+        fut[fam, "gen"] = pool.submit(tlc_ok, "UserFlow.%s.gen.cfg" % fam, "generation", timeout=600, workers=2)
     for fam in FAMILIES:
-        fut[fam, "check"] = pool.submit(tlc_ok, "UserFlow.%s.%s.cfg" % (fam, tier_cfg), "prescriptive", timeout=1200)
-        fut[fam, "gen"] = pool.submit(tlc_ok, "UserFlow.%s.gen.cfg" % fam, "generation", timeout=600)
         fut[fam, "sim"] = pool.submit(vlib.tlc, "MCUserFlow", "UserFlow.%s.sim.cfg" % fam, workers=1, simulate="num=%d" % n_sim, depth=16, seed=seed, timeout=300)
-    fut["one", "check"] = pool.submit(tlc_ok, "UserFlow.one.quick.cfg", "prescriptive, one flow, 3 attacker steps, 2 ticks", timeout=600, coverage=not quick)
     if not quick:
-        fut["cover"] = pool.submit(tlc_ok, "UserFlow.tenants.quick.cfg", "coverage", timeout=900, coverage=True)
+        fut["one", "check"] = pool.submit(tlc_ok, "UserFlow.one.quick.cfg", "prescriptive, one flow, 3 attacker steps, 2 ticks", timeout=900, workers=2)
+        fut["cover"] = pool.submit(tlc_ok, "UserFlow.tenants.quick.cfg", "coverage", timeout=1200, coverage=True, workers=2)
 
-    results, traces_by_fam, by_id, flows_by_fam = [], {}, {}, {}
-    t_models = 0.0
+    by_id, flows_by_fam, all_scripts = {}, {}, []
     for fam in FAMILIES:
+        # behaviours of the code's variant of the specification
+        s = fut[fam, "sim"].result()
+        if s.error and "timeout" in s.error:
+            raise Inconclusive(s.error)
+        flows_by_fam[fam] = flows = flows_of(s)
+        sim = vlib.dedupe_maximal([p["steps"] for p in s.printed if isinstance(p, dict) and "steps" in p])
+        scripts = [dict(id="%s-s%04d" % (fam, i), steps=clean(b)) for i, b in enumerate(sim[:n_sim])]
+        if fam in gen_fams:
+            g = fut[fam, "gen"].result()
+            states += g.distinct
+            transitions += g.generated
+            models.append(dict(cfg="UserFlow.%s.gen.cfg" % fam, states=g.distinct, transitions=g.generated, depth=g.depth, wall_s=round(g.wall, 1), variant="descriptive"))
+            wit = [p["steps"] for p in g.printed if isinstance(p, dict) and "steps" in p]
+            n_wit += len(wit)
+            scripts += [dict(id="%s-w%04d" % (fam, i), steps=clean(b)) for i, b in enumerate(select(wit, per_family, rnd))]
+        scripts += [dict(id="%s-%s" % (fam, d["id"]), steps=d["steps"]) for d in directed(fam)]
+        for sc in scripts:
+            sc["flows"] = flows
+            by_id[sc["id"]] = (fam, sc)
+        all_scripts += scripts
+    rnd.shuffle(all_scripts)
+    inp = dict(flows=flows_by_fam["tenants"], scripts=all_scripts)
+    if corrupt:
+        inp["corrupt"] = corrupt
+    td = time.time()
+    results = vlib.run_driver_parallel(binary, inp, shards=(5 if quick else 6), timeout=(300 if quick else 1200))
+    t_driver = time.time() - td
+    traces_by_fam = {fam: [r for r in results if by_id[r["id"]][0] == fam] for fam in FAMILIES}
+    # the statement holds of the prescriptive design (exhaustive, small constants)
+    for fam in ([] if fast else FAMILIES):
         m = fut[fam, "check"].result()
         states += m.distinct
         transitions += m.generated
         models.append(dict(cfg="UserFlow.%s.%s.cfg" % (fam, tier_cfg), states=m.distinct, transitions=m.generated, depth=m.depth, wall_s=round(m.wall, 1), variant="prescriptive"))
-        flows = flows_of(m)
-        flows_by_fam[fam] = flows
-        g = fut[fam, "gen"].result()
-        states += g.distinct
-        transitions += g.generated
-        models.append(dict(cfg="UserFlow.%s.gen.cfg" % fam, states=g.distinct, transitions=g.generated, depth=g.depth, wall_s=round(g.wall, 1), variant="descriptive"))
-        wit = [p["steps"] for p in g.printed if isinstance(p, dict) and "steps" in p]
-        n_wit += len(wit)
-        chosen = select(wit, per_family, rnd)
-        s = fut[fam, "sim"].result()
-        if s.error and "timeout" in s.error:
-            raise Inconclusive(s.error)
-        sim = vlib.dedupe_maximal([p["steps"] for p in s.printed if isinstance(p, dict) and "steps" in p])
-        scripts = [dict(id="%s-w%04d" % (fam, i), steps=clean(b)) for i, b in enumerate(chosen)]
-        scripts += [dict(id="%s-s%04d" % (fam, i), steps=clean(b)) for i, b in enumerate(sim[:n_sim])]
-        scripts += [dict(id="%s-%s" % (fam, d["id"]), steps=d["steps"]) for d in directed(fam)]
-        for sc in scripts:
-            by_id[sc["id"]] = (fam, sc)
-        inp = dict(flows=flows, scripts=scripts)
-        if corrupt:
-            inp["corrupt"] = corrupt
-        td = time.time()
-        res = vlib.run_driver_parallel(binary, inp, shards=(4 if quick else 6), timeout=(300 if quick else 900))
-        t_models += 0
-        results += res
-        traces_by_fam[fam] = res
-    o = fut["one", "check"].result()
-    states += o.distinct
-    transitions += o.generated
-    models.append(dict(cfg="UserFlow.one.quick.cfg", states=o.distinct, transitions=o.generated, depth=o.depth, variant="prescriptive"))
-    for k, v in o.coverage.items():
-        cover[k] = cover.get(k, 0) + v
+    if not quick:
+        o = fut["one", "check"].result()
+        states += o.distinct
+        transitions += o.generated
+        models.append(dict(cfg="UserFlow.one.quick.cfg", states=o.distinct, transitions=o.generated, depth=o.depth, variant="prescriptive"))
 
     # verdicts from the real observables
     nchecks = nreq = ntok = ninc = 0
@@ -232,10 +240,12 @@ def run(prop, tier, seed, replay=None):
 
     # recorded traces of the real code are validated by TLC against the specification
     acc = rejn = 0
-    for fam in FAMILIES:
+    def validate(fam):
         good = [r for r in traces_by_fam[fam] if r.get("trace") and not r.get("error")]
+        return good, vlib.validate_traces("TraceUserFlow", "UserFlow.trace.%s.cfg" % fam, [r["trace"] for r in good], timeout=900)
+    vres = list(pool.map(validate, FAMILIES))
+    for fam, (good, (a, rej)) in zip(FAMILIES, vres):
         traces = [r["trace"] for r in good]
-        a, rej = vlib.validate_traces("TraceUserFlow", "UserFlow.trace.%s.cfg" % fam, traces, timeout=900)
         acc += a
         rejn += len(rej)
         for x in rej[:5]:
@@ -270,7 +280,7 @@ def run(prop, tier, seed, replay=None):
 
     cov = dict(states=states, transitions=transitions, traces_validated_against_impl=acc + rejn, traces_accepted=acc, traces_rejected=rejn,
                samples=samples or [results[0].get("outs")], models=models, behaviours_replayed_on_real_code=len(results), witness_behaviours_available=n_wit,
-               oracle_evaluations=nchecks, http_exchanges_observed=nreq, access_tokens_delivered_and_introspected=ntok, inconclusive_scripts=ninc,
+               oracle_evaluations=nchecks, http_exchanges_observed=nreq, driver_wall_s=round(t_driver, 1), access_tokens_delivered_and_introspected=ntok, inconclusive_scripts=ninc,
                action_coverage=cover, answers_seen={"%s:%s" % k: v for k, v in sorted(outs.items())}, deviations_seen=sorted("%s/%s" % k for k in seen), exhaustive=False,
                rule="TLC exhausts the prescriptive UserFlow configs listed under 'models' (invariants + action properties, 2 flows x 2 browsers x 2 tenants x 2 verifiers, "
                     "every mixing of the two flows' values); behaviours of the DESCRIPTIVE variant (one witness per distinct terminal state and per state departing from the "
